@@ -31,7 +31,8 @@ META = {
     "technique": "symbolic execution of mici.matrices with explorer-enumerated orders of lazy attribute requests; z3 refutes "
                  "order-dependence and operand mutation; concrete float pass for hash / copy / pickle",
     "explanation": "bounded: request sequences of length <= 3, size 2",
-    "bounds": {"quick": {"request_sequence_length": 2, "size": 2}, "thorough": {"request_sequence_length": 3, "size": 2}},
+    "bounds": {"quick": {"request_sequence_length": 2, "size": 2, "attributes": "all (five common ones for the classes with expensive terms)"},
+               "thorough": {"request_sequence_length": "2 over all attributes, 3 over the core attributes T/inv/sqrt/array/log_abs_det/matvec", "size": 2}},
     "outside": "sizes > 2; hash/pickle on symbolic values (byte-level: checked concretely)",
     "stubs": ["LAPACK stubs"],
     "assumptions": ["denominators recorded during execution non-zero"],
@@ -243,33 +244,41 @@ def concrete_pass(rec, kind):
     rec.note(f"{kind}: {n} concrete hash/copy/pickle/write-protection passes")
 
 
-def run_group(rec, kind, seqs):
+def run_group(rec, kind, seqs, extras=True):
     rec.encoded(M.Matrix.__init__, M.Matrix.__eq__, M.Matrix.__hash__, M.Matrix.transpose, M.InvertibleMatrix.inv,
                 M.PositiveDefiniteMatrix.sqrt, M.SymmetricMatrix.eigval, M.ImplicitArrayMatrix.array)
     for seq in seqs:
         run_problem(rec, prob_order, {"kind": kind, "seq": list(seq)}, key_prefix=f"order/{kind}:", timeout_ms=30000, max_paths=60)
-    run_problem(rec, prob_equality, {"kind": kind}, key_prefix=f"equality/{kind}:", timeout_ms=30000, max_paths=60 if kind not in ml.RECT else 2000)
-    concrete_pass(rec, kind)
+    if extras:
+        run_problem(rec, prob_equality, {"kind": kind}, key_prefix=f"equality/{kind}:", timeout_ms=30000, max_paths=60 if kind not in ml.RECT else 2000)
+        concrete_pass(rec, kind)
+
+
+CORE_ATTRS = ["T", "inv", "sqrt", "array", "log_abs_det", "matvec"]
 
 
 def cases(tier):
     th = tier == "thorough"
     out = []
-    L = 3 if th else 2
     for kind in ml.leaves(2) + ml.RECT:
+        heavy = kind.startswith(HEAVY)
         if kind in ml.RECT:
             attrs = RECT_ATTRS
-        elif kind.startswith(HEAVY) and not th:
+        elif heavy and not th:
             # quick tier: the classes whose attributes are expensive rational/transcendental terms get the five attributes
             # every class has (all 20 ordered pairs); the full attribute list is explored in the thorough tier
             attrs = ["T", "inv", "array", "log_abs_det", "matvec"]
         else:
             attrs = ATTRS
-        seqs = [p for n in range(2, L + 1) for p in itertools.permutations(attrs, n)]
-        # keep the per-class work bounded: all ordered pairs, and (thorough) triples
-        if not th:
-            seqs = [s for s in seqs if len(s) == 2]
-        out.append(Case(f"{kind}", run_group, {"kind": kind, "seqs": seqs}, timeout_s=3000))
+        # all ordered pairs; thorough: also all ordered triples of the core attributes (of four of them for the expensive classes)
+        seqs = list(itertools.permutations(attrs, 2))
+        if th:
+            core = [a for a in (CORE_ATTRS[:4] if heavy else CORE_ATTRS) if a in attrs]
+            seqs += list(itertools.permutations(core, 3))
+        per = 400 if not th else (25 if heavy else 120)
+        chunks = [seqs[i:i + per] for i in range(0, len(seqs), per)]
+        for ci, ch in enumerate(chunks):
+            out.append(Case(kind if len(chunks) == 1 else f"{kind}/s{ci}", run_group, {"kind": kind, "seqs": ch, "extras": ci == 0}, timeout_s=3000))
     return out
 
 
